@@ -4,8 +4,10 @@ package main
 
 import (
 	"bytes"
+	"fmt"
 	"runtime/debug"
 	"strconv"
+	"strings"
 
 	"github.com/VKCOM/tl/pkg/basictl"
 
@@ -222,7 +224,19 @@ func init() {
 			return "diff read2 " + hx(b2)
 		}
 		t2, err2 := wr(obj2)
-		j2, jerr2 := obj2.WriteJSONGeneral(&basictl.JSONWriteContext{}, nil)
+		var j2 []byte
+		var jerr2 error
+		if msg := func() (msg string) {
+			defer func() {
+				if r := recover(); r != nil {
+					msg = fmt.Sprint(r)
+				}
+			}()
+			j2, jerr2 = obj2.WriteJSONGeneral(&basictl.JSONWriteContext{}, nil)
+			return ""
+		}(); msg != "" {
+			return "diff json-panic-after-tl2-read " + strings.ReplaceAll(msg, " ", "_") + " via " + hx(b2)
+		}
 		if (err1 == nil) != (err2 == nil) || !bytes.Equal(t1, t2) {
 			return "diff tl1 " + hx(t1) + " " + hx(t2) + " via " + hx(b2)
 		}
